@@ -31,6 +31,7 @@ type Env struct {
 	errs    []string
 	inOld   int
 	addrVars map[string]tv // names bound to cells (captured variables): dereferenced on use
+	trace    []Event       // the path's effect trace (for evres / evarg / evcount)
 }
 
 func (e *Env) fail(format string, args ...interface{}) tv {
@@ -751,6 +752,66 @@ func (e *Env) evalCall(n ECall) tv {
 			return tv{Sc{T: iv.Val}, types.NewPointer(t)}
 		}
 		return tv{c.unbox(s, iv.Val, t), t}
+	case "funcref":
+		// funcref("pkg.Func"): the function constant
+		nameE, ok := n.Args[0].(EStr)
+		if !ok {
+			return e.fail("funcref needs a string")
+		}
+		fn := c.eng.fnByKey[nameE.V]
+		if fn == nil {
+			return e.fail("funcref: unknown function %s", nameE.V)
+		}
+		return tv{c.funcValue(s, fn, nil), fn.Signature}
+	case "evres", "evarg", "evrecv":
+		// evres("event pattern", k): k-th result of the unique matching event on this path
+		nameE, ok := n.Args[0].(EStr)
+		if !ok {
+			return e.fail("%s needs an event pattern string", n.Fn)
+		}
+		var found []Event
+		for _, ev := range e.trace {
+			if matchEvent(nameE.V, ev.Name) {
+				found = append(found, ev)
+			}
+		}
+		if len(found) != 1 {
+			return e.fail("%s(%q): %d matching events on this path (need exactly 1)", n.Fn, nameE.V, len(found))
+		}
+		ce := e.child()
+		c.bindEvent(ce, found[0])
+		if n.Fn == "evrecv" {
+			if v, ok := ce.vars["$recv"]; ok {
+				return v
+			}
+			return e.fail("event has no receiver")
+		}
+		k := 0
+		if len(n.Args) > 1 {
+			if ki, ok := n.Args[1].(EInt); ok {
+				k = atoi(ki.V)
+			}
+		}
+		key := fmt.Sprintf("$res%d", k)
+		if n.Fn == "evarg" {
+			key = fmt.Sprintf("$arg%d", k)
+		}
+		if v, ok := ce.vars[key]; ok {
+			return v
+		}
+		return e.fail("%s: event has no %s", n.Fn, key)
+	case "evcount":
+		nameE, ok := n.Args[0].(EStr)
+		if !ok {
+			return e.fail("evcount needs an event pattern string")
+		}
+		cnt := 0
+		for _, ev := range e.trace {
+			if matchEvent(nameE.V, ev.Name) {
+				cnt++
+			}
+		}
+		return tv{Sc{T: IntLit(int64(cnt))}, intT}
 	case "mapkey":
 		// mapkey(v): the engine's encoding of a (struct) map key as a single term
 		v := e.eval(n.Args[0])
